@@ -8,23 +8,23 @@ import re
 V = '/verif'
 STATUS = [
  # id, theorems (what is proved for all inputs), tie, what is NOT a theorem
- ('C01', 'LUTs = primitive functions (33x16); both 2-valued dispatch copies = LUT per lane; primitive selection; opcode injectivity; lane lifting; **build_ops_solution**: for every wf, comb.-acyclic netlist and stimulus the scheduler\'s op list executed gate by gate satisfies every node\'s equation (any value domain) -- when Proofs/SemProofs.v is integrated', 'T (SimTables, LogicSimDispatch) + C (SimOps.build, LogicSim s_to_c/c_prop/c_to_s/cycle: ops, levels, c_locs, s[0], s[1] after k cycles) + solution_b / certificates evaluated per case', 'memory map refinement is certificate-based (map_check_sound + per-case evaluation); k-cycle iteration by correspondence/oracle'),
- ('C02', '4-/8-valued dispatch (plain and callback) = documented operator composition on all 8^4/4^4 tuples; X-soundness, init/final projection, Boolean restriction per primitive and for every op list and stimulus (logical relation)', 'T + C (LogicSim m=4/8 end to end)', 'as C01 for scheduler/memory'),
- ('C03', 'per gate evaluation, any LUT/operands/delays>=0/capacity>=4: termination, final value by parity (also under overflow), initial value, well-formed result within capacity', 'C (whole waveform memory, abuf, s[3..10] per lane)', 'composition along a circuit; float rounding off the integer grid'),
- ('C04', 'per gate: every emitted time = operand time + one of its delays; shift and scale equivariance (any k>0); strict monotonicity for polarity-free delays', 'C + STA/shift/scale/monotonicity/emit-sum oracle', 'STA window at circuit level (follows by induction from emit_is_sum; oracle-checked)'),
- ('C05', 'hazard soundness of the 8-valued algebra per primitive (exhaustive); no_change_no_edge per gate evaluation; init/final of both simulators', 'T + C (both simulators)', 'circuit-level composition of the two per-op facts'),
- ('C06', 'mock-GPU launch covers each in-range thread exactly once; lane independence; release order irrelevant (free_commute)', 'differential execution over all option/lane/code-path pairs incl. repeated propagation; option-parametric models', 'c_reuse / strip_forks / dataset invariance as theorems'),
- ('C07', 'greedy levelisation of every SSA-topological op list is an independent partition (levels_valid); any order inside levels gives the same signals (perm_level_sound); threads once', 'C (SimOps) + certificates per case + permuted-schedule execution', 'sub-kernel interleavings; build_ops SSA for all circuits (S2 of SemProofs when integrated)'),
- ('C08', 'allocator: invariant for all histories, alloc_fresh, free_live, live_disjoint, high_water, free_commute; map: map_check_sound (a checked map refines line-level execution)', 'C (Heap after every step; SimOps) + certificates per case + liveness oracle', 'build() always passes map_check'),
- ('C09', 'see builder report (integrated later)', 'C (full canonical state after every edit step)', ''),
- ('C10', 'none yet (structure theorems from the C09 model)', 'differential truth tables / s_nodes order; all library cell definitions', 'semantic theorem for substitute'),
+ ('C01', 'LUTs = primitive functions; both 2-valued dispatch copies = LUT per lane; primitive selection; opcode injectivity; lane lifting; **build_ops_solution** (for every wf, comb.-acyclic netlist and stimulus the op list SimOps builds, executed gate by gate in any value domain, satisfies every node\'s equation), solution_unique, logic2_gate_by_gate (gate outputs = prim_fn of pin values); map_check_sound (C08) for the flat memory; [end_to_end for default options if Proofs/EndToEnd.v is integrated]', 'T (SimTables, LogicSimDispatch) + C (SimOps.build, LogicSim s_to_c/c_prop/c_to_s/cycle: ops, levels, c_locs, s[0], s[1] after k cycles) + per-case evaluation of solution_b, certificates, wf_netlist_b/acyclic_b', 'k-cycle iteration (correspondence/oracle); build() passes map_check for c_reuse / strip_forks'),
+ ('C02', '4-/8-valued dispatch (plain and callback) = documented operator composition on all 8^4/4^4 tuples; X-soundness, init/final projection, Boolean restriction per primitive and for every op list and stimulus (logical relation)', 'T + C (LogicSim m=4/8 end to end)', 'as C01 for the memory map'),
+ ('C03', 'per gate evaluation (any LUT/operands/delays>=0/capacity>=4): termination, final value by parity (also under overflow), initial value, well-formedness; **circuit level**: for any op list every signal starts/ends at the Boolean evaluation of initial/final values', 'C (whole waveform memory, abuf, s[3..10] per lane)', 'flat waveform memory with regions (correspondence + certificate); float rounding off the integer grid'),
+ ('C04', 'per gate: emit-is-sum, shift and scale equivariance (any k>0), strict monotonicity for polarity-free delays; **circuit level**: STA window over any op list', 'C + STA/shift/scale/monotonicity/emit-sum oracle + single-gate stress', 'circuit-level shift/scale (reruns)'),
+ ('C05', 'hazard soundness of the 8-valued algebra per primitive; no_change_no_edge per gate; **circuit level**: logic8_predicts_wave for any op list', 'T + C (both simulators) + small-circuit stress', 'memory level as C03'),
+ ('C06', 'strip_forks_irrelevant (every wf acyclic netlist, any value domain: stripped schedule = unstripped at every line); mock-GPU launch covers each in-range thread exactly once; lane independence; release order irrelevant', 'differential execution over all option/lane/code-path pairs incl. repeated propagation and dataset modes; known finding D26', 'c_reuse invariance and dataset selection as theorems; strip_forks for waveforms (false in general: D26)'),
+ ('C07', 'levels_valid (greedy levelisation of every SSA-topological op list is an independent partition); build_ops_ssa + **build_levels_valid** (unconditional for every wf acyclic netlist, no fork stripping); perm_level_sound (any order inside levels, same signals); threads once', 'C (SimOps) + certificates per case + permuted-schedule / permuted-thread execution', 'sub-kernel interleavings; SSA form with strip_forks (certificate per case)'),
+ ('C08', 'allocator: invariant for all histories, alloc_fresh, free_live, live_disjoint, high_water, free_commute; map: map_check_sound', 'C (Heap after every step; SimOps) + certificates per case + liveness oracle', 'build() always passes map_check with c_reuse'),
+ ('C09', 'CInv for the empty circuit and preserved by every primitive edit, SetIO, GetOrAddFork, RemoveDangling, Eliminate1to1, Copy, PickleRoundTrip; lifted to all histories; io entries stay live; canon(copy)=canon; stats; cinv_b sound; refutation of the pre-fix substitute', 'C (full canonical state after every step of random/wild/instance histories) + independent invariant oracle with shrinking', 'Substitute / ResolveTlib preserve CInv (modelled, cinv_b evaluated per step)'),
+ ('C10', '[bridge CInv -> wf_netlist and copy/pickle view preservation if Proofs/CircuitViewProofs.v is integrated]', 'differential truth tables / s_nodes order; all library cell definitions; known findings D15, D21, D22', 'semantic theorem for substitute / resolve'),
  ('C11', 'range/part-select names, sized constants (length, value, MSB first), concat = flat_map, port positions / io order, bench wiring', 'C (transformer helpers, bench elaboration) + generator-owned netlists in both formats', 'grammars; Verilog module passes 1-2; full verilog_sem'),
  ('C12', 'every bp8/bp4/mv operator k=1..4 = documented algebra; formats agree; Boolean restriction and De Morgan (any arity on {0,1}, k<=4 on eight values); lane lifting', 'T (LogicOps) + exhaustive C', 'mv_* wrappers (broadcast, out=) differential'),
- ('C13', 'returned counts = edges of the stored waveform; overflow-mark rule; no overflow => exact (any larger capacity, operands up to terminators); capture_summary (init, final, eat, lst, value before T, ovl); prefix lemma', 'C + recount / unlimited-capacity oracle', 'abuf accumulation as a theorem (sum over ops is by correspondence)'),
+ ('C13', 'returned counts = edges of the stored waveform; overflow-mark rule; no overflow => exact (any larger capacity, operands up to terminators); capture_summary; prefix lemma', 'C + recount / unlimited-capacity oracle', 'abuf accumulation over ops (correspondence)'),
  ('C14', 'cells_none_lost (+ refuted for the pinned code), iopath/interconnect slot characterisation, edge qualifiers, empty triples, dataset axis', 'C (DelayFile contents, both arrays incl. exceptions) + ground-truth arrays', 'SDF grammar'),
- ('C15', 'bp round trips (any shape), axis convention, render/parse tables (regenerated), pack/unpack for all dtypes, popcount', 'T (LogicTables) + C (numpy primitives) + oracle', 'numpy primitive semantics are assumptions validated by correspondence'),
- ('C16', 'callback trace = op outputs in order; identity; upstream untouched; override = driven signal; callback dispatch copies = plain', 'T + C (call sequence + results) + cut-circuit oracle', 'protocol glue in c_prop'),
- ('C17', 'Kahn: nodup, sources first, drivers first, complete (unconnected pins), levels, line order, reverse = mirror; prefix lookup lists integer keys in numeric order', 'C (exact sequences; _locs results) + graph/ground-truth oracles', 'fanin sandwich (oracle); regular expression generality'),
+ ('C15', 'bp round trips (any shape), axis convention, render/parse tables (regenerated), pack/unpack for all dtypes, popcount', 'T (LogicTables) + C (numpy primitives) + oracle', 'numpy primitive semantics (assumptions validated by correspondence)'),
+ ('C16', 'callback trace = op outputs in order; identity; upstream untouched; override = driven signal; callback dispatch copies = plain', 'T + C (call sequence + results) + cut-circuit oracle over option combinations', 'protocol glue in c_prop'),
+ ('C17', 'Kahn: nodup, sources first, drivers first, complete (unconnected pins), levels, line order, reverse = mirror; prefix lookup lists integer keys in numeric order; wf_netlist_b/acyclic_b sound', 'C (exact sequences; _locs results) + graph/ground-truth oracles', 'fanin sandwich (oracle); regular-expression generality'),
  ('C18', 'scan load/unload position with inversion parity, pi/po groups, interface = s_nodes, loc transition, per-pattern columns; refutations for the pinned code', 'C (patterns, maps, tests, responses, tests_loc) + ground truth', 'STIL grammar; the logic simulation inside tests_loc is an input of the model'),
  ('C19', 'pins once, names unique/expand, datasheet function of every family cell on all rows (regenerated libraries)', 'T (TechLibs) + exhaustive C against TechLib.cells', 'family spec is trusted'),
  ('C20', 'wildcard resolution (structural + nearest-value iff), via location, via arrays (members iff, count, order, NoDup), per-layer/per-type listings, ROUTED accumulation, ROW arithmetic', 'C (listings, points, vias) + ground truth of generated DEF texts', 'DEF grammar and transformer callbacks'),
